@@ -119,7 +119,16 @@ def z_int(v):
         return v.z
     if isinstance(v, VBool):
         return z3.If(v.z, z3.IntVal(1), z3.IntVal(0))
+    if isinstance(v, VTuple) and len(v.items) == 2 and not v.is_list:
+        # a 2-tuple stored in a container / passed where an object is expected: interned as TUP2(a, b); the
+        # contract supplies the pairing axioms (FST/SND projections) where it needs them
+        return TUP2(z_int(v.items[0]), z_int(v.items[1]))
     raise Unsupported(f"cannot Int-code {v!r}")
+
+
+TUP2 = z3.Function("TUP2", z3.IntSort(), z3.IntSort(), z3.IntSort())
+FST = z3.Function("FST", z3.IntSort(), z3.IntSort())
+SND = z3.Function("SND", z3.IntSort(), z3.IntSort())
 
 
 def z_bool(v):
